@@ -237,6 +237,15 @@ class Vec(object):
         self.xs.pop()
 
 
+def class_id(t):
+    """an exception class up to the stand-ins vinegar makes for classes it may not instantiate (C09's business)"""
+    if t is None:
+        return None
+    if issubclass(t, vinegar.GenericException):
+        return t.__name__
+    return "%s.%s" % (t.__module__, t.__name__)
+
+
 class CM(object):
     """context manager that records what it is told and swallows one class of exception"""
 
@@ -255,10 +264,10 @@ class CM(object):
 
     def __exit__(self, typ, val, tb):
         self.depth -= 1
-        self.log.append(("exit", None if typ is None else typ.__name__, None if val is None else type(val).__name__, tb is not None))
+        self.log.append(("exit", class_id(typ), None if val is None else class_id(type(val)), tb is not None))
         if self.fail_exit:
             raise KeyError("exit failed")
-        return typ is not None and typ.__name__ == self.swallow
+        return typ is not None and class_id(typ).split(".")[-1] == self.swallow
 
     def value(self): return len(self.log)
 
